@@ -20,6 +20,10 @@ def main(tier):
                  'outside': 'which request wins when a higher-priority one arrives during the 5 dispatch cycles; interrupt ROMs'}
     ck.assumptions = ['sequence harness: SP in D002-DFF0 (stack does not overlap the program at C000), RETI returns to the next instruction of the program']
     ck.run(jobs)
+    # single-instruction lemma for the master enable and the EI latch: EI, DI, RETI and the filler instructions of the alphabet,
+    # from every IME / latch state in which no dispatch is due (e.g. EI with the master enable already set arms nothing)
+    ck.run([('cpu', e, {'op': o, 'cb': 0}) for e in ('VerifInstr', 'VerifInstrAfter') for o in (0xfb, 0xf3, 0xd9, 0x00, 0x04, 0x3e, 0xe0, 0x76)],
+           only=r'^(IME|EI-latch|IE-IF-untouched|PC|SP|cycles)$')
     ck.finish(explanation='interrupt dispatch at a boundary for all IE/IF/IME values, and EI/DI/RETI timing over all short programs with requests raised at every machine cycle, against a reference with a one-instruction EI delay')
 
 
